@@ -2169,6 +2169,22 @@ impl TransactionBuilder {
                             .unwrap()
                             .amount
                             .checked_add(&change_left)?;
+                        // the top-up bypasses add_output: the output it changed must still respect the same two limits
+                        let topped_up = self.outputs.0.last().unwrap();
+                        let value_size = topped_up.amount.to_bytes().len();
+                        if value_size > self.config.max_value_size as usize {
+                            return Err(JsError::from_str(&format!(
+                                "Maximum value size of {} exceeded. Found: {}",
+                                self.config.max_value_size, value_size
+                            )));
+                        }
+                        let min_ada = min_ada_for_output(&topped_up, &self.config.utxo_cost())?;
+                        if topped_up.amount.coin < min_ada {
+                            return Err(JsError::from_str(&format!(
+                                "Value {} less than the minimum UTXO value {}",
+                                topped_up.amount.coin, min_ada
+                            )));
+                        }
                     }
                     Ok(true)
                 } else {
